@@ -400,6 +400,52 @@ impl Family for PromoFam {
     }
 }
 
+/// EDGE5: wrap-around geometry. White king on the a- or h-file, a black pawn or knight on the
+/// opposite edge file, a black checker-capable piece anywhere, a white defender anywhere, black
+/// king anywhere; white to move. (Bit-shift based attack code can leak across the board edge; no
+/// family with fewer than five men puts pieces of both sides on both edges and leaves room for a
+/// checker and a defender.) The index space is large: callers take a co-prime sub-lattice.
+pub struct Edge5;
+const EDGE_X: [u8; 2] = [PAWN, KNIGHT];
+const EDGE_Y: [u8; 5] = [ROOK, BISHOP, QUEEN, KNIGHT, PAWN];
+const EDGE_Z: [u8; 5] = [ROOK, BISHOP, KNIGHT, QUEEN, PAWN];
+impl Family for Edge5 {
+    fn name(&self) -> String {
+        "EDGE5".into()
+    }
+    fn len(&self) -> u64 {
+        16 * 16 * 320 * 320 * 64
+    }
+    fn decode(&self, mut i: u64) -> Option<Pos> {
+        let wk = (i % 16) as i8;
+        i /= 16;
+        let x = (i % 16) as usize;
+        i /= 16;
+        let y = (i % 320) as usize;
+        i /= 320;
+        let z = (i % 320) as usize;
+        i /= 320;
+        let bk = (i % 64) as u8;
+        let wk_file = if wk < 8 { 0 } else { 7 };
+        let wk_sq = sq_at(wk_file, wk % 8)?;
+        let x_sq = sq_at(7 - wk_file, (x % 8) as i8)?;
+        let mut p = Pos::empty();
+        p.board[wk_sq as usize] = pc(WHITE, KING);
+        for (sq, piece) in [(x_sq, pc(BLACK, EDGE_X[x / 8])), ((y % 64) as u8, pc(BLACK, EDGE_Y[y / 64])), ((z % 64) as u8, pc(WHITE, EDGE_Z[z / 64])), (bk, pc(BLACK, KING))] {
+            if p.board[sq as usize] != EMPTY {
+                return None;
+            }
+            p.board[sq as usize] = piece;
+        }
+        p.stm = WHITE;
+        if p.is_legal_position() {
+            Some(p)
+        } else {
+            None
+        }
+    }
+}
+
 /// wraps a family and yields the colour-flipped twin of every member
 pub struct Flipped<'a>(pub &'a dyn Family);
 impl<'a> Family for Flipped<'a> {
